@@ -298,7 +298,10 @@ func (run *Run) Finish(ff *FindingsFile, floors []Floor) int {
 		rules = append(rules, r.Rule)
 	}
 	sort.Strings(rules)
-	for _, name := range rules {
+	for i, name := range rules {
+		if i > 0 && rules[i-1] == name {
+			continue
+		}
 		for _, r := range run.Results {
 			if r.Rule != name {
 				continue
